@@ -4,7 +4,7 @@ import json
 import os
 
 import gen
-from core import Result
+from core import Result, guard
 from protocol import enc_tree, dec_tree, canon_tree, canon_sorted
 
 RULE = ("stream A: random pairs of plain-data trees over a 5-key pool (depth<=3) through IncludeField.combine_trees vs the "
@@ -319,8 +319,8 @@ def stream_b(ctx, res, n):
 
 def run(ctx):
     res = Result()
-    stream_a(ctx, res, ctx.n(2000, 60000))
-    stream_b(ctx, res, ctx.n(150, 3000))
+    guard(res, "C18", stream_a, ctx, res, ctx.n(2000, 60000))
+    guard(res, "C18", stream_b, ctx, res, ctx.n(150, 3000))
     return res
 
 
